@@ -3,4 +3,7 @@
 set -e
 cd "$(dirname "$0")"
 export CARGO_NET_OFFLINE=true
+export VERIF_ROOT="$(pwd)"
 cargo build --release --workspace 2>&1 | tail -3
+# E-GEN: build dust_dds once into the shared target dir used for generated crates
+./target/release/gen SETUP quick 2>&1 | tail -2 || true
